@@ -324,13 +324,14 @@ def install_noise(cx, module_name="acnportal.acnsim.models.battery"):
 # ---- JSON round trip on (possibly symbolic) registries -----------------------------------------
 
 
-def json_roundtrip(o):
-    """json.loads(json.dumps(o, cls=NpEncoder)) with identity on numeric leaves (symbolic or not).
-    Container semantics of JSON are kept: tuple->list, dict keys->str, ndarray->list, np scalars->python."""
+def json_roundtrip(o, sort_keys=False):
+    """json.loads(json.dumps(o, cls=NpEncoder, sort_keys=...)) with identity on numeric leaves (symbolic or not).
+    Container semantics of JSON are kept: tuple->list, dict keys->str (insertion order, or sorted with sort_keys),
+    ndarray->list, np scalars->python."""
     if is_sym(o):
         return o
     if isinstance(o, real_np.ndarray):
-        return json_roundtrip(o.tolist())
+        return json_roundtrip(o.tolist(), sort_keys)
     if isinstance(o, real_np.integer):
         return int(o)
     if isinstance(o, real_np.floating):
@@ -348,10 +349,12 @@ def json_roundtrip(o):
                 k = repr(k) if isinstance(k, float) else str(k)
             elif not isinstance(k, str):
                 raise TypeError("keys must be str, int, float, bool or None")
-            out[k] = json_roundtrip(v)
+            out[k] = json_roundtrip(v, sort_keys)
+        if sort_keys:
+            out = {k: out[k] for k in sorted(out)}
         return out
     if isinstance(o, (list, tuple)):
-        return [json_roundtrip(v) for v in o]
+        return [json_roundtrip(v, sort_keys) for v in o]
     if o is None or isinstance(o, (bool, int, float, str)):
         return o
     raise TypeError("Object of type %s is not JSON serializable" % type(o).__name__)
@@ -378,7 +381,10 @@ class JsonProxy(types.ModuleType):
     def dumps(self, o, cls=None, **kw):
         self.n += 1
         t = JsonToken("{\"symbolic-json-document\": %d}" % self.n)
-        t.data = json_roundtrip(o)
+        unknown = set(kw) - {"sort_keys", "indent", "separators", "ensure_ascii", "allow_nan", "default"}
+        if unknown:
+            raise TypeError("json proxy: unmodelled dumps() options %s" % sorted(unknown))
+        t.data = json_roundtrip(o, sort_keys=bool(kw.get("sort_keys")))
         return t
 
     def loads(self, s, **kw):
